@@ -295,7 +295,15 @@ pub fn run(tier: &str) -> Run {
     let mut run = Run::new("C15", tier);
     let thorough = tier == "thorough";
     let g = crate::corpus::grammar();
-    let starts = start_texts(&g);
+    let mut starts = start_texts(&g);
+    let n_small = starts.len();
+    // large files (groups of more than 20 entries per kind, the sizes at which sorting algorithms change their strategy)
+    let big = starts.len();
+    {
+        let mut specs: Vec<ESpec> = (0..30).map(|i| e("MEASUREMENT", &format!("bm{i:02}"), "c1")).collect();
+        specs.extend((0..30).map(|i| e("CHARACTERISTIC", &format!("bc{i:02}"), "c1")));
+        starts.push(("30+30".into(), file_text(&g, "m", &specs)));
+    }
     let acts = all_actions();
     let mut hists: Vec<(usize, Vec<Act>, bool, &'static str)> = Vec::new();
     // (i) all action sequences up to depth d (every step observed)
@@ -312,7 +320,7 @@ pub fn run(tier: &str) -> Run {
         }
         frontier = next;
     }
-    for si in 0..starts.len() {
+    for si in 0..n_small {
         for h in &frontier {
             // each full-depth sequence ends with S so that the last pushes are placed
             let mut h2 = h.clone();
@@ -372,11 +380,47 @@ pub fn run(tier: &str) -> Run {
         hists.push((2, h, true, "insert-sort-cycles"));
         hists.push((0, vec![Act::P(k), Act::P((k + 1) % 6), Act::S, Act::P(k), Act::S, Act::S, Act::M(1), Act::S], true, "insert-sort-cycles"));
     }
+    // several new elements of one kind per cycle on a large file: they share one position key for ever, so their
+    // relative order rests on the stability of every later sort
+    for k in 0..PUSH_KINDS.len() {
+        for per_cycle in [2usize, 5] {
+            let mut h = Vec::new();
+            for _ in 0..(if thorough { 24 } else { 12 }) {
+                for _ in 0..per_cycle {
+                    h.push(Act::P(k));
+                }
+                h.push(Act::S);
+            }
+            hists.push((big, h, true, "bulk-insert-cycles"));
+        }
+    }
     // (iii) k consecutive calls on files of varying size
     let mut ladder_starts: Vec<(String, String)> = Vec::new();
     for n in [1usize, 2, 10, 100, 1000] {
         let specs: Vec<ESpec> = (0..n).map(|i| e(if i % 3 == 0 { "CHARACTERISTIC" } else { "MEASUREMENT" }, &format!("x{i}"), "c1")).collect();
         ladder_starts.push((format!("{n} elements"), file_text(&g, "m", &specs)));
+    }
+    // files in which the kinds appear in every order, in small and large blocks, with module-level IF_DATA / USER_RIGHTS in front
+    let kinds3 = ["MEASUREMENT", "CHARACTERISTIC", "COMPU_METHOD"];
+    for perm in [[0usize, 1, 2], [0, 2, 1], [1, 0, 2], [1, 2, 0], [2, 0, 1], [2, 1, 0]] {
+        for sizes in [[2usize, 40, 3], [40, 2, 3], [3, 3, 40]] {
+            for front in ["", "IF_DATA", "USER_RIGHTS"] {
+                let mut specs: Vec<ESpec> = Vec::new();
+                if front == "USER_RIGHTS" {
+                    specs.push(e("USER_RIGHTS", "u1", "c1"));
+                }
+                for (slot, ki) in perm.iter().enumerate() {
+                    for i in 0..sizes[slot] {
+                        specs.push(e(kinds3[*ki], &format!("k{ki}_{i:02}"), "c1"));
+                    }
+                }
+                let mut text = file_text(&g, "m", &specs);
+                if front == "IF_DATA" {
+                    text = text.replacen("\n    /begin ", "\n    /begin IF_DATA ZZ 1 /end IF_DATA\n    /begin ", 1);
+                }
+                ladder_starts.push((format!("blocks {perm:?} of sizes {sizes:?}, {front} in front"), text));
+            }
+        }
     }
     let res = par_map(
         hists.len(),
@@ -435,7 +479,7 @@ pub fn run(tier: &str) -> Run {
     run.require("all-sequences: stable", 1000);
     run.require("long-history: stable", 1000);
     run.extra.insert("bounds".into(), json!({"all_sequences_depth": depth, "long_history_length": len, "actions": acts.len(), "starts": starts.len()}));
-    run.rule = "state = the real A2lFile; actions = sort_new_items (S), push a builder-made element of 6 kinds (P), merge one of 3 small modules with fresh names (M). (i) every action sequence of depth d from 4 start files, observed after each step; (ii) histories of S of length L with at most two other actions at every pair of positions; (iii) 64 consecutive S on files with 1..1000 elements; insert/sort cycles (40, thorough 200). Observation: the order of the module's children in write_to_string (reference interpreter). Oracle: relative order of placed elements never changes; after S each new element sits in the run directly behind the last placed element of its kind (behind all placed elements if there is none); no panic / overflow.".into();
+    run.rule = "state = the real A2lFile; actions = sort_new_items (S), push a builder-made element of 6 kinds (P), merge one of 3 small modules with fresh names (M). (i) every action sequence of depth d from 4 start files, observed after each step; (ii) histories of S of length L with at most two other actions at every pair of positions; (iii) 64 consecutive S on files with 1..1000 elements and on 54 files in which three kinds appear in every order in blocks of 2..40 with IF_DATA / USER_RIGHTS in front; insert/sort cycles (40, thorough 200); 2 and 5 new elements of one kind per cycle for 12 (24) cycles on a file with 30+30 elements. Observation: the order of the module's children in write_to_string (reference interpreter). Oracle: relative order of placed elements never changes; after S each new element sits in the run directly behind the last placed element of its kind (behind all placed elements if there is none); no panic / overflow.".into();
     run
 }
 
